@@ -52,14 +52,17 @@ pub fn gen_ctr_iv(rng: &mut Rng, fl: Flavor, bs: usize) -> Vec<u8> {
     let mut iv = gen_iv(rng, bs);
     let w = (fl.bits / 8) as usize;
     let maxv: u128 = if fl.bits == 128 { u128::MAX } else { (1u128 << fl.bits) - 1 };
-    let v: u128 = match rng.below(10) {
+    let v: u128 = match rng.below(11) {
         0 => 0,
         1 => 1,
         2 => 0xff,
         3 => 0xffff,
         4 => (1u128 << 31) - 1,
         5 => (1u128 << 32) - 1,
-        6 | 7 => maxv - rng.below(40) as u128,
+        6 => maxv - rng.below(40) as u128,
+        // a carry inside the field: low half (or low word) at all-ones, the rest random
+        7 => (rng.u128() << 64) | (u64::MAX - rng.below(40)) as u128,
+        8 => (rng.u128() << 32) | (u32::MAX as u128 - rng.below(40) as u128),
         _ => rng.u128(),
     } & maxv;
     for k in 0..w {
